@@ -19,9 +19,11 @@ object reaches the caller" is expressible. -/
 
 namespace Life
 
-/-- kind of a base class of the composed machine class (`hook` = the class overrides `init`) -/
+/-- kind of a base class of the composed machine class (`hook` = the class overrides `init`;
+    `host` = the connector is the real `ConsoleConnector`, whose `_connect` first enters a clone
+    of the lab-host it was constructed with) -/
 inductive Kind where
-  | pre | conn | init | power | shell | post | hook
+  | pre | host | conn | init | power | shell | post | hook
   deriving DecidableEq, Repr, Inhabited
 
 /-- one class of the composition; `id` = its position in the list of bases -/
@@ -124,9 +126,13 @@ def enterSteps (f : Faults) (delay : Nat) : List Step → List Frame → Env →
 
 /-- the order in which `__enter__` visits the classes: three filters over `type(self).mro()` with
     the connector, the shell and the hook (resolved through the MRO: the first definition) in
-    between. -/
+    between.  `ConsoleConnector._connect` (connector/common.py) is
+    `with self.host.clone() as cloned, self.connect(cloned) as ch: yield ch` — two nested contexts
+    inside one generator; they behave as two consecutive steps (the second failing to enter exits
+    the first at once, exits run in reverse, the last exception wins). -/
 def machSteps (mro : List Step) : List Step :=
   mro.filter (fun s => s.kind == .pre)
+  ++ (mro.find? (fun s => s.kind == .host)).toList
   ++ (mro.find? (fun s => s.kind == .conn)).toList
   ++ mro.filter (fun s => s.kind == .init || s.kind == .power)
   ++ (mro.find? (fun s => s.kind == .shell)).toList
@@ -273,11 +279,12 @@ def balanced : List Op → Nat → Bool
   | .closed :: ops, d => d > 0 && balanced ops (d - 1)
   | _ :: ops, d => balanced ops d
 
-/-- domain of the property: exactly one connector and one shell, at most one `PowerControl`
-    and one `init` override (Python cannot express more), well-bracketed bodies -/
+/-- domain of the property: exactly one connector and one shell, at most one `PowerControl`,
+    one `init` override and one lab-host (Python cannot express more), well-bracketed bodies -/
 def Case.wf (c : Case) : Bool :=
   c.bases.count .conn == 1 && c.bases.count .shell == 1 && c.bases.count .power ≤ 1
-  && c.bases.count .hook ≤ 1 && c.sessions.all (fun s => balanced s.body 0)
+  && c.bases.count .hook ≤ 1 && c.bases.count .host ≤ 1
+  && c.sessions.all (fun s => balanced s.body 0)
 
 /-! ## wire format -/
 namespace Wire
@@ -297,12 +304,13 @@ def lettered (s : String) : Option (Char × Nat) :=
 def style (cs : List Char) : Option Unit :=
   if cs == ['g'] || cs == ['k'] then some () else none
 
-/-- `pg pk cg ck ig ik sg sk qg qk` (kind + context-manager style, ignored by the model), `w`, `h` -/
+/-- `pg pk lg lk cg ck ig ik sg sk qg qk` (kind + context-manager style, ignored by the model), `w`, `h` -/
 def kind (s : String) : Option Kind :=
   match s.toList with
   | ['w'] => some .power
   | ['h'] => some .hook
   | 'p' :: st => (style st).map fun _ => .pre
+  | 'l' :: st => (style st).map fun _ => .host
   | 'c' :: st => (style st).map fun _ => .conn
   | 'i' :: st => (style st).map fun _ => .init
   | 's' :: st => (style st).map fun _ => .shell
